@@ -18,6 +18,8 @@ type c33Expect struct {
 	Stderr string `json:"stderr"`
 	File   string `json:"file,omitempty"`
 	FName  string `json:"fname,omitempty"`
+	Alt    string `json:"alt,omitempty"`     // another acceptable file content (overlapping appenders)
+	Partial string `json:"partial,omitempty"` // content while the background appender has not finished yet
 	Size   int    `json:"size"`
 }
 
@@ -46,7 +48,7 @@ func init() {
 	register(&Property{
 		ID:    "C33",
 		Level: "exploration",
-		Rule: "a generated function writes payload O to stdout then payload E to stderr (PRNG text incl. punctuation, tabs, newlines, non-ASCII; sizes 1 B .. 200 KiB quick / 2 MiB thorough); it is called with each of the 9 consistent combinations of {none,<err>,<null>} x {none,<!out>,<!null>} at the end of a chain, before `;` and before `|` (the next stage tags what it read); `|> file` and `>> file` with random previous contents, the file read back by the harness; " +
+		Rule: "a generated function writes payload O to stdout then payload E to stderr (PRNG text incl. punctuation, tabs, newlines, non-ASCII; sizes 1 B .. 200 KiB quick / 2 MiB thorough); it is called with each of the 9 consistent combinations of {none,<err>,<null>} x {none,<!out>,<!null>} at the end of a chain, before `;` and before `|` (the next stage tags what it read); `|> file` and `>> file` with random previous contents, the file read back by the harness; two overlapping appenders (a background `>>` that has opened the file and waits behind a named pipe while the foreground appends to the same file: both payloads must be in the file, in either order); " +
 			"oracle: the routing table of the statement with conservation (each payload appears exactly on the stream/file the table says and nowhere else); non-trivial = at least one redirection token or a file; distinct by (redirection, position, payloads)",
 		Assumptions: []string{"payloads are passed through variables and do not end in CR/LF (`out $v` strips one)", "both payloads are written by sequential commands, so O precedes E when they share a stream"},
 		Run: func(x *Ctx) {
@@ -141,6 +143,24 @@ func init() {
 				cases = append(cases, &proto.Case{ID: fmt.Sprintf("c33-%d", id), Op: "prog", Block: block, Expect: exp, TimeoutMs: 60000, ReadFiles: []string{fname},
 					Vars: []proto.Var{{Name: "prev", Type: "str", Value: prev}, {Name: "a", Type: "str", Value: p1}, {Name: "b", Type: "str", Value: p2}}})
 			}
+			// two appenders that overlap: a background `>>` that has opened the file and waits for its
+			// input (gated by a named pipe) while the foreground appends to the same file
+			no := x.Pick(16, 400)
+			for i := 0; i < no; i++ {
+				r := x.Rng("overlap", i)
+				prev, p1, p2 := c33Payload(r, "P", 60), c33Payload(r, "A", 60), c33Payload(r, "B", 60)
+				fname := fmt.Sprintf("c33o_%d_%d.dat", x.Seed, i)
+				gate := fmt.Sprintf("c33g_%d_%d", x.Seed, i)
+				id++
+				block := "out $prev |> " + fname + "\npipe " + gate + "\nbg { <" + gate + "> >> " + fname + " }\n" +
+					"a [1..400] -> count -> null\nout $b >> " + fname + "\nout $a -> <" + gate + ">\n!pipe " + gate + "\n"
+				e := c33Expect{Kind: "file", Redir: "append-overlapping", Pos: "file", FName: fname,
+					File: prev + "\n" + p2 + "\n" + p1 + "\n", Alt: prev + "\n" + p1 + "\n" + p2 + "\n", Partial: prev + "\n" + p2 + "\n"}
+				e.Size = len(e.File)
+				exp, _ := json.Marshal(e)
+				cases = append(cases, &proto.Case{ID: fmt.Sprintf("c33-%d", id), Op: "prog", Block: block, Expect: exp, TimeoutMs: 60000, IdleMs: 3500, ReadFiles: []string{fname},
+					Vars: []proto.Var{{Name: "prev", Type: "str", Value: prev}, {Name: "a", Type: "str", Value: p1}, {Name: "b", Type: "str", Value: p2}}})
+			}
 			x.RunAll(pool, cases)
 		},
 		Check: func(x *Ctx, c *proto.Case, r *proto.Result) {
@@ -160,6 +180,16 @@ func init() {
 			}
 			if e.Kind == "file" {
 				got, ok := run.Files[e.FName]
+				if e.Redir == "append-overlapping" && ok {
+					switch string(got) {
+					case e.File, e.Alt:
+						x.Count("overlapping_appends_both_present", 1)
+						return
+					case e.Partial:
+						x.Inconclusive("the background appender had not finished when the file was read")
+						return
+					}
+				}
 				if !ok || !bytes.Equal(got, []byte(e.File)) || len(run.Stdout) != 0 {
 					x.Viol("file:"+e.Redir, fmt.Sprintf("%s: program\n%s\nleft file (present=%v) with %d bytes %q, expected %d bytes %q; stdout=%q stderr=%q", e.Redir, c.Block, ok, len(got), trunc(string(got), 200), len(e.File), trunc(e.File, 200), trunc(string(run.Stdout), 100), trunc(string(run.Stderr), 300)), c, trunc(string(got), 3000), trunc(e.File, 3000))
 				}
